@@ -133,10 +133,24 @@ def build_kmodel(force=False):
     subprocess.run(["rm", "-rf", ext])
     os.makedirs(ext)
     exdir = os.path.join(COQ, "theories", "Extract")
+    # One `Separate Extraction` over the union of all Extract/*.v files: running them one after the other would let
+    # each run overwrite the shared library modules (List0.ml, Datatypes.ml, ...) with only ITS closure.
+    reqs, names = [], []
     for ev in sorted(f for f in os.listdir(exdir) if f.endswith(".v")):
-        rc, out = run_cmd(["coqc", "-Q", os.path.join(COQ, "theories"), "KV", os.path.join(exdir, ev)], cwd=ext, timeout=900)
-        if rc:
-            return False, "extraction failed (%s):\n%s" % (ev, out)
+        text = strip_coq_comments(open(os.path.join(exdir, ev)).read())
+        for m in re.finditer(r"From\s+KV\s+Require\s+Import\s+(.*?)\.(?=\s)", text, re.S):
+            reqs += [n for n in m.group(1).split() if n not in reqs]
+        m = re.search(r"Separate\s+Extraction\s+(.*?)\.\s*$", text, re.S)
+        if not m:
+            return False, "extraction failed (%s): no `Separate Extraction` list found" % ev
+        names += [n for n in m.group(1).split() if n not in names]
+    with open(os.path.join(ext, "ExtractAll.v"), "w") as f:
+        f.write("From Coq Require Import Extraction ExtrOcamlBasic ExtrOcamlNativeString.\n"
+                "From KV Require Import %s.\nExtraction Blacklist String List Bool.\nSeparate Extraction\n  %s.\n"
+                % (" ".join(reqs), "\n  ".join(names)))
+    rc, out = run_cmd(["coqc", "-Q", os.path.join(COQ, "theories"), "KV", "ExtractAll.v"], cwd=ext, timeout=900)
+    if rc:
+        return False, "extraction failed:\n%s" % out
     odir = os.path.join(VERIF, "ocaml")
     cmds = sorted(f for f in os.listdir(odir) if f.startswith("cmds_") and f.endswith(".ml"))
     for f in ["kcore.ml", "kmain.ml"] + cmds:
